@@ -246,7 +246,11 @@ def run(ctx):
                          ([ST, (b'x-note', b'a'), (b'x-note', b'a')], None), ([ST, (b'content-type', b''), (b'content-type', b'text/html')], None),
                          ([(b'x-a', b''), ST, (b'x-a', b'v')], None), ([ST, ST], None), ([ST, (b':status', b'404')], None), ([(b'x-a', b'1')], None), ([ST, (b'X-A', b'1')], None),
                          ([ST, (b'x-b', b'2'), (b'x-a', b'1')], None), ([ST, (b'x-a', b'1')], 3), ([ST, (b'x-a', b'1'), (b'x-b', b'2')], 2), ([ST, (b':method', b'GET')], None),
-                         ([(b':status', b'20')], None), ([(b':status', b'2000')], None), ([(b':status', b'2x0')], None), ([ST, (b'x-a', b'caf\xc3\xa9')], None), ([ST, (b'', b'v')], None)]:
+                         ([(b':status', b'20')], None), ([(b':status', b'2000')], None), ([(b':status', b'2x0')], None),
+                         # three bytes that a number parser takes but that are not three digits; and other near-numbers
+                         ([(b':status', b'-20')], None), ([(b':status', b'+20')], None), ([(b':status', b'-07')], None), ([(b':status', b'+00')], None), ([(b':status', b'-00')], None),
+                         ([(b':status', b' 20')], None), ([(b':status', b'20 ')], None), ([(b':status', b'2e1')], None), ([(b':status', b'0x1')], None), ([(b':status', b'1_0')], None),
+                         ([(b':status', b'\xef\xbc\x91')], None), ([(b':status', b'000')], None), ([(b':status', b'099')], None), ([(b':status', b'600')], None), ([(b':status', b'999')], None), ([(b':status', b'')], None), ([ST, (b'x-a', b'caf\xc3\xa9')], None), ([ST, (b'', b'v')], None)]:
         r = craft_response(pairs, b'body', count)
         crafted.append(craft_b2([(b'https://example.com/', r)]))
         crafted.append(craft_b2([(b'https://example.com/0', craft_response([ST], b'ok')), (b'https://example.com/1', r)], primary=b'https://example.com/0'))
